@@ -3,10 +3,10 @@ import os, random
 from vlib import core, sqlfmt, sqlcmp, dbgen
 
 
-def run_cmds(tag, lines, timeout=900):
+def run_cmds(tag, lines, timeout=900, sides=("impl", "model")):
     """run a list of (id, command) on both sides; returns impl, model dicts"""
     text = "".join("# %s\n%s\n" % (cid, cmd) for cid, cmd in lines)
-    res = core.run_pair(text, tag, timeout=timeout)
+    res = core.run_pair(text, tag, timeout=timeout, sides=sides)
     return res, core.split_cases(res["impl"][1]), core.split_cases(res["model"][1])
 
 
